@@ -497,6 +497,12 @@ static bool has_flonum2(Type *ty) {
 // Counts the general-purpose and SSE registers needed to pass a
 // struct or union of at most 16 bytes: one register per 8-byte chunk.
 static void struct_regs(Type *ty, int *ngp, int *nfp) {
+  // A zero-sized struct or union (GNU extension) is not passed at all.
+  if (ty->size == 0) {
+    *ngp = *nfp = 0;
+    return;
+  }
+
   bool fp1 = has_flonum1(ty);
   bool fp2 = has_flonum2(ty);
   bool two = ty->size > 8;
@@ -645,6 +651,10 @@ static void copy_ret_buffer(Obj *var) {
   Type *ty = var->ty;
   int gp = 0, fp = 0;
 
+  // A zero-sized struct or union is returned in no register.
+  if (ty->size == 0)
+    return;
+
   if (has_flonum1(ty)) {
     assert(ty->size == 4 || 8 <= ty->size);
     if (ty->size == 4)
@@ -681,6 +691,10 @@ static void copy_ret_buffer(Obj *var) {
 static void copy_struct_reg(void) {
   Type *ty = current_fn->ty->return_ty;
   int gp = 0, fp = 0;
+
+  // A zero-sized struct or union is returned in no register.
+  if (ty->size == 0)
+    return;
 
   println("  mov %%rax, %%rdi");
 
@@ -996,7 +1010,9 @@ static void gen_expr(Node *node) {
       switch (ty->kind) {
       case TY_STRUCT:
       case TY_UNION:
-        if (ty->size > 16)
+        // Neither a struct passed in memory nor a zero-sized one
+        // has been pushed for a register.
+        if (ty->size > 16 || ty->size == 0)
           continue;
 
         bool fp1 = has_flonum1(ty);
@@ -1713,6 +1729,8 @@ static void emit_text(Obj *prog) {
       case TY_STRUCT:
       case TY_UNION:
         assert(ty->size <= 16);
+        if (ty->size == 0)
+          break;
         if (has_flonum(ty, 0, 8, 0))
           store_fp(fp++, var->offset, MIN(8, ty->size));
         else
